@@ -313,7 +313,8 @@ PPL::Dense_Row::Dense_Row(const Sparse_Row& row)
 void
 PPL::Dense_Row::init(const Sparse_Row& row) {
   impl.capacity = row.size();
-  impl.vec = impl.coeff_allocator.allocate(impl.capacity);
+  impl.vec = (impl.capacity == 0)
+    ? nullptr : impl.coeff_allocator.allocate(impl.capacity);
   Sparse_Row::const_iterator itr = row.begin();
   const Sparse_Row::const_iterator itr_end = row.end();
   while (impl.size != impl.capacity) {
